@@ -131,8 +131,8 @@ func (c *containerServer) sendLoop() {
 			if !ok {
 				return
 			}
-			err := c.socket.SendMsg(rep.Reply, rep.Msg)
 			verifTraceReply("c>", &rep.Reply)
+			err := c.socket.SendMsg(rep.Reply, rep.Msg)
 			for _, f := range rep.FileToClose {
 				f.Close()
 			}
